@@ -110,6 +110,12 @@ def x0_variants(dim):
     V = [("int64", np.array(ints, dtype=np.int64)), ("int32", np.array(ints, dtype=np.int32)),
          ("float32", np.array(ints, dtype=np.float32)), ("bool", np.array(bits, dtype=bool)),
          ("list-of-int", list(ints))]
+    # G7: same float64 numbers, other array properties
+    f = np.array(ints, dtype=np.float64)
+    strided = np.empty(2 * dim); strided[::2] = f; strided[1::2] = 99.0
+    ro = f.copy(); ro.setflags(write=False)
+    V += [("float64-strided-view", strided[::2]), ("float64-reversed-view", f[::-1].copy()[::-1]),
+          ("float64-readonly", ro), ("float64-fortran-column", np.asfortranarray(f.reshape(-1, 1))[:, 0])]
     return [(n, v, np.array(v, dtype=np.float64)) for n, v in V]
 
 
@@ -515,6 +521,28 @@ def _run(ctx, cuqi, M, thorough, rng, ckpath):
             impl = "C=" + cj(str(ids(c)) for c in res["chain"]) + ";E=" + cj(f"{ids(x)}@{i}" for x, i in res["events"])
             llines.append(f"leg {int(view)} {int(cbflag)} {N} {Nb} {x0id} {cj(map(str, outs_ids))}")
             lmeta.append((keyb, desc, impl))
+    # G8/G5 on the stateless interface: the Samples returned by a first call are unchanged by a second call on the
+    # same sampler object; `Nb` by keyword = positional
+    for cfg in lcfgs:
+        N, Nb = (11, 2) if cfg["accepts"](11, 2) else (5, 0)
+        keyb = f"legacy:{cfg['name']}:{cfg['method']}"
+        desc = {"sampler": cfg["name"], "method": cfg["method"], "ops": [f"r1 = {cfg['method']}({N},{Nb})", f"r2 = {cfg['method']}({N}, Nb={Nb})", "re-verify r1"]}
+        ctx.case("legacy-retained", desc)
+        try:
+            reseed(seed + 3)
+            s_ = cfg["mk"](None)
+            r1 = getattr(s_, cfg["method"])(N, Nb)
+            snap1 = np.array(r1.samples, copy=True)
+            reseed(seed + 3)
+            r2 = getattr(s_, cfg["method"])(N, Nb=Nb)
+            snap2 = np.array(r2.samples, copy=True)
+            reseed(seed + 4)
+            getattr(s_, cfg["method"])(N, Nb)
+        except Exception as e:
+            ctx.note(f"{keyb}: repeated call raised {repr(e)[:100]}")
+            continue
+        if not np.array_equal(r1.samples, snap1) or not np.array_equal(r2.samples, snap2):
+            ctx.fail(keyb + ":retained", desc, "Samples returned earlier are unchanged by later calls", "changed", "a chain handed out earlier was altered by a later call")
     # G1/G2 on the stateless interface: start given as int64 / int32 / float32->skipped / bool / list
     for cfg in lcfgs:
         N, Nb = (11, 2) if cfg["accepts"](11, 2) else (5, 0)
@@ -610,6 +638,7 @@ def build_targets(cuqi):
         y = cuqi.distribution.Gaussian(A, lambda l: 1 / l)
         return cuqi.distribution.JointDistribution(d, l, x, y)(y=y_obs)
     T["gibbs"] = hier()
+    T["gibbs_factory"] = hier
     # UserDefined with gradient (accepts everything needing logd+gradient)
     mu = np.array([0.5, -1.0])
     T["user2"] = cuqi.distribution.UserDefinedDistribution(dim=2, logpdf_func=lambda x: -0.5 * float(np.sum((x - mu) ** 2)),
@@ -841,8 +870,9 @@ def oracle_stateful(ctx, cuqi, keyb, clsname, mk, N, K, tf, ckpath, seed, script
         dim0 = int(probe.dim)
     except Exception:
         dim0 = None
-    if dim0:
+    if dim0 and K == 0:
         Nd = min(N, 8)
+        search_cache = {}
 
         def run_from(x0v, sd):
             evd = []
@@ -860,19 +890,23 @@ def oracle_stateful(ctx, cuqi, keyb, clsname, mk, N, K, tf, ckpath, seed, script
                 continue   # the harness' own Toy.step adds arrays
             # pick a random stream under which the first transition is rejected and a later one accepted
             # (the first recorded state is then the start object itself), if the sampler rejects at all
-            sd, ref64 = seed + 2, None
-            for j in range(1 if scripted else 6):
-                try:
-                    r64 = run_from(as_float, seed + 2 + j)
-                except Exception as e:
-                    r64 = repr(e)[:160]
-                    break
-                acc = [float(np.sum(a)) for a in r64[3]._acc[1:]]
-                if ref64 is None or (acc and acc[0] == 0 and any(a > 0 for a in acc[1:])):
-                    ref64, sd = r64, seed + 2 + j
-                    if acc and acc[0] == 0 and any(a > 0 for a in acc[1:]):
+            ckey = tuple(float(t) for t in as_float)
+            if ckey not in search_cache:
+                sd, ref64 = seed + 2, None
+                for j in range(1 if scripted else 6):
+                    try:
+                        r64 = run_from(as_float, seed + 2 + j)
+                    except Exception as e:
                         break
-            if ref64 is None or isinstance(r64, str) and ref64 is None:
+                    acc = [float(np.sum(a)) for a in r64[3]._acc[1:]]
+                    hit = bool(acc and acc[0] == 0 and any(a > 0 for a in acc[1:]))
+                    if ref64 is None or hit:
+                        ref64, sd = r64, seed + 2 + j
+                    if hit or (acc and all(a > 0 for a in acc)):
+                        break   # found, or this sampler never rejects
+                search_cache[ckey] = (sd, ref64)
+            sd, ref64 = search_cache[ckey]
+            if ref64 is None:
                 continue   # this start is not acceptable to the sampler at all
             acc64 = [float(np.sum(a)) for a in ref64[3]._acc[1:]]
             dsc = {"initial_point": vname, "values": [float(t) for t in as_float], "ops": [f"sample({Nd})", "get_samples()"],
@@ -911,6 +945,66 @@ def oracle_stateful(ctx, cuqi, keyb, clsname, mk, N, K, tf, ckpath, seed, script
                          "the array returned by get_samples() aliases the stored chain", dsc)
             except Exception:
                 pass
+
+    # ---- G8 retained outputs: everything handed out (get_samples(), get_state(), get_history()) is snapshotted when
+    #      returned and re-verified after all later calls; G5: `callback` re-assigned between calls, `initial_point`
+    #      re-assigned followed by reinitialize()
+    try:
+        if K != 0 and not scripted:
+            raise StopIteration
+        kept = []   # (what, object, snapshot)
+        def keep(what, arrs):
+            kept.append((what, arrs, [np.array(a, copy=True) for a in arrs]))
+        ev1, ev2 = [], []
+        s, scr = start(lambda x, i: ev1.append((np.array(x, dtype=float, copy=True), int(i))))
+        a1, b1 = max(1, N // 3), max(1, N // 4)
+        s.sample(a1)
+        keep("get_samples() after sample(a)", [s.get_samples().samples])
+        st = s.get_state()["state"]
+        keep("get_state() after sample(a)", [v for v in st.values() if isinstance(v, np.ndarray)])
+        keep("stored chain entries after sample(a)", list(s._samples))
+        s.callback = lambda x, i: ev2.append((np.array(x, dtype=float, copy=True), int(i)))
+        s.warmup(b1, tf)                      # positional tune_freq
+        keep("get_samples() after warmup(b)", [s.get_samples().samples])
+        s.sample(Ns=b1)                        # keyword Ns
+        keep("get_samples() after sample(b)", [s.get_samples().samples])
+        dsc = {"ops": [f"sample({a1})", "get_samples()", "get_state()", "callback re-assigned", f"warmup({b1})", "get_samples()", f"sample({b1})", "get_samples()", "re-verify everything returned"]}
+        for what, arrs, snaps in kept:
+            if any(not (np.asarray(a).shape == sn.shape and np.array_equal(np.asarray(a), sn, equal_nan=True)) for a, sn in zip(arrs, snaps)):
+                fail("retained", "objects returned earlier are unchanged by later calls", what, "an array handed out earlier was altered by a later call", dsc)
+                break
+        if [i for _, i in ev1] != list(range(a1)) or [i for _, i in ev2] != list(range(a1, a1 + 2 * b1)):
+            fail("callback", f"first callback gets indices 0..{a1 - 1}, the re-assigned one {a1}..{a1 + 2 * b1 - 1}", [[i for _, i in ev1], [i for _, i in ev2]],
+                 "after re-assigning `callback` the transitions are not reported once each to the current callback", dsc)
+        elif not chains_equal([x for x, _ in ev1 + ev2], chain(s)):
+            fail("callback", "callback states = recorded chain", "differs", "callback state differs from the chain entry at the index passed", dsc)
+        # initial_point re-assigned, then reinitialize: behaves as a sampler constructed with that initial point
+        dim1 = int(s.dim)
+        newx0 = np.array([(2, -1, 1, 0, 3, -2)[i % 6] for i in range(dim1)], dtype=float)
+        if clsname in ("Conjugate", "ConjugateApprox"):
+            newx0 = np.abs(newx0) + 1.0
+        s.initial_point = newx0.copy()
+        if not scripted:
+            reseed(seed + 11)
+        else:
+            s.script = script_factory()
+        s.reinitialize()
+        s.sample(min(N, 4))
+        f2, scf2 = start(None)
+        f2.initial_point = newx0.copy()
+        if not scripted:
+            reseed(seed + 11)
+        f2.sample(min(N, 4))
+        if clsname != "NUTS" and not chains_equal(chain(s), chain(f2)):   # NUTS: max_depth reset is the listed finding
+            fail("reassigned-initial-point", "initial_point re-assigned + reinitialize() = sampler constructed with that initial point",
+                 f"first difference at {first_diff(chain(s), chain(f2))}", "a re-assigned initial_point is not honoured after reinitialize",
+                 {"ops": ["sample", "initial_point = new", "reinitialize()", f"sample({min(N, 4)})"]})
+    except StopIteration:
+        pass
+    except Exception as e:
+        msg = f"{keyb}: retained-output / re-assignment sequence raised {repr(e)[:120]}"
+        if msg not in ctx.notes:
+            ctx.note(msg)
 
     # ---- split and checkpoint at every position
     for p in range(N + 1):
@@ -1174,6 +1268,81 @@ def gibbs_checks(ctx, cuqi, M, L, T, thorough, seed):
             if not chains_equal(cb_chain, ref):
                 ctx.fail(kp, {**desc, "position": p}, "sample(p); sample(N-p) == sample(N) bitwise",
                          f"position {p}: first difference at {first_diff(cb_chain, ref)}", "Gibbs chain is not continuous across a split")
+    # ---- G8/G2/G1 for the Gibbs samplers: every chain handed out is re-verified after later calls; user-set
+    #      init_point arrays (float / int, shared by two samplers) are not modified and give the same chain
+    def snap_dict(d):
+        return {k: np.array(v.samples, copy=True) for k, v in d.items()}
+
+    def dict_same(d, sn):
+        return all(np.asarray(d[k].samples).shape == sn[k].shape and np.array_equal(d[k].samples, sn[k]) for k in sn)
+
+    keyb = "gibbs:Gibbs(legacy)"
+    desc = {"sampler": "Gibbs(legacy)", "ops": ["r1 = sample(3)", "r2 = sample(2)", "r3 = sample(1)", "re-verify r1, r2"]}
+    ctx.case("gibbs-retained", desc)
+    try:
+        reseed(seed + 9); g = mk_l()
+        r1 = g.sample(3); s1 = snap_dict(r1)
+        r2 = g.sample(2); s2 = snap_dict(r2)
+        r3 = g.sample(1)
+        if not dict_same(r1, s1) or not dict_same(r2, s2):
+            ctx.fail(keyb + ":retained", desc, "chains returned by earlier calls are unchanged by later calls",
+                     "first returned chain altered" if not dict_same(r1, s1) else "second returned chain altered",
+                     "a later transition overwrote an entry of a chain handed out earlier")
+        # the continuation's own record still starts with the first call's states
+        if not all(np.array_equal(r3[k].samples[:, :3], s1[k]) for k in s1):
+            ctx.fail(keyb + ":retained", desc, "the cumulative chain begins with the states of the first call", "differs", "recorded states were altered by later transitions")
+    except Exception as e:
+        ctx.note(f"{keyb}: retained sequence raised {repr(e)[:140]}")
+    chains_by_kind = {}
+    for kind in ("float64", "int64"):
+        desc = {"sampler": "Gibbs(legacy)", "init_point": kind, "ops": ["density.init_point = user arrays", "g1.sample(3); g1.sample(2)", "g2 (same target, same arrays).sample(3)"]}
+        ctx.case("gibbs-init-point", desc)
+        try:
+            reseed(2000 + seed)
+            tgt = T["gibbs_factory"]()
+            dt = np.float64 if kind == "float64" else np.int64
+            user = {"d": np.array([2], dtype=dt), "l": np.array([3], dtype=dt), "x": np.array([1, 0, 2, -1, 0, 1, 3, 0], dtype=dt)}
+            snaps = {k: v.copy() for k, v in user.items()}
+            for k, v in user.items():
+                tgt.get_density(k).init_point = v
+            reseed(seed + 9)
+            g1 = L.Gibbs(tgt, {'x': L.LinearRTO, ('d', 'l'): L.Conjugate})
+            c1 = lchain(g1.sample(3), g1.par_names)
+            g1.sample(2)
+            reseed(seed + 9)
+            g2 = L.Gibbs(tgt, {'x': L.LinearRTO, ('d', 'l'): L.Conjugate})
+            c2 = lchain(g2.sample(3), g2.par_names)
+            chains_by_kind[kind] = c1
+            if any(not (user[k].dtype == snaps[k].dtype and np.array_equal(user[k], snaps[k])) for k in user):
+                ctx.fail(keyb + ":caller-array", desc, "user-set init_point arrays are not modified", {k: user[k].tolist() for k in user if not np.array_equal(user[k], snaps[k])},
+                         "sampling wrote into the caller's init_point array")
+            if not chains_equal(c1, c2):
+                ctx.fail(keyb + ":caller-array", desc, "a second sampler sharing the init_point arrays draws the same chain from the same stream",
+                         f"first difference at {first_diff(c1, c2)}", "the first sampler's run changed what the second sampler starts from")
+        except Exception as e:
+            ctx.note(f"{keyb}: init_point ({kind}) sequence raised {repr(e)[:140]}")
+    if len(chains_by_kind) == 2 and not chains_equal(chains_by_kind["float64"], chains_by_kind["int64"]):
+        ctx.fail(keyb + ":dtype-chain:int64", {"sampler": "Gibbs(legacy)", "init_point": "int64 vs float64"}, "same chain from integer and float init_point of equal value",
+                 f"first difference at {first_diff(chains_by_kind['float64'], chains_by_kind['int64'])}", "the dtype of init_point changes the chain")
+    # HybridGibbs: retained get_samples(), caller-owned initial_point of the block samplers
+    keyb = "gibbs:HybridGibbs"
+    desc = {"sampler": "HybridGibbs", "ops": ["sample(3)", "r1 = get_samples()", "warmup(2)", "r2 = get_samples()", "sample(2)", "re-verify r1, r2, initial points"]}
+    ctx.case("gibbs-retained", desc)
+    try:
+        reseed(seed + 7)
+        x0 = np.array([1.0, 0, 2, -1, 0, 1, 3, 0]); d0 = np.array([2.0]); x0s, d0s = x0.copy(), d0.copy()
+        hg = M.HybridGibbs(target, {'x': M.LinearRTO(maxit=15, initial_point=x0), 'd': M.Conjugate(initial_point=d0), 'l': M.Conjugate()})
+        hg.sample(3); r1 = hg.get_samples(); s1 = snap_dict(r1)
+        hg.warmup(2); r2 = hg.get_samples(); s2 = snap_dict(r2)
+        hg.sample(2); r3 = hg.get_samples()
+        if not dict_same(r1, s1) or not dict_same(r2, s2):
+            ctx.fail(keyb + ":retained", desc, "chains returned earlier are unchanged by later calls", "altered", "a later transition overwrote an entry of a chain handed out earlier")
+        if not all(np.array_equal(np.asarray(r3[k].samples)[..., :3], s1[k]) for k in s1):
+            ctx.fail(keyb + ":retained", desc, "the chain begins with the states recorded first", "differs", "recorded states were altered by later transitions")
+        if not (np.array_equal(x0, x0s) and np.array_equal(d0, d0s)):
+            ctx.fail(keyb + ":caller-array", desc, "initial_point arrays of the block samplers are not modified", "modified", "sampling wrote into the caller's initial_point array")
+    except Exception as e:
+        ctx.note(f"{keyb}: retained sequence raised {repr(e)[:140]}")
     houts = ctx.lean.drive(hlines)
     for (keyb, desc, impl), out in zip(hmeta, houts):
         ctx.case("gibbs-tie", desc, nontrivial=False)
